@@ -65,7 +65,7 @@ Definition table : list entry := [
   (KMolecule, (RConcat KMolecule 1), (mk_row Copied Copied Copied RSelf (Some (mk_brow Copied Copied Copied RSelf ERemap)) ACopied ACopied AAbsent Reset false));
   (KMolecule, (RConcat KMolecule 3), (mk_row Copied Copied Copied RSelf (Some (mk_brow Copied Copied Copied RSelf ERemap)) ACopied ACopied AAbsent Reset false));
   (KStructure, (RJoin KStructure), (mk_row Copied Copied Copied RSelf (Some (mk_brow Copied Copied Copied RSelf ERemap)) AGiven AAbsent AAbsent Reset false));
-  (KMolecule, (RJoin KMolecule), (mk_row Copied Copied Copied RSelf (Some (mk_brow Copied Copied Copied RSelf ERemap)) AGiven AGiven AAbsent Reset false));
+  (KMolecule, (RJoin KMolecule), (mk_row Copied Copied Copied RSelf (Some (mk_brow Copied Copied Copied RSelf ERemap)) AGiven ACopied AAbsent Reset false));
   (KMolecule, REnsFromList, (mk_row Copied Copied Copied RSelf (Some (mk_brow Copied Copied Copied RSelf ERemap)) AGiven AGiven AGiven Copied true));
   (KConformer, REnsFromList, (mk_row Copied Copied Copied RSelf (Some (mk_brow Copied Copied Copied RSelf ERemap)) AGiven AGiven AGiven Copied true));
   (KAtom, REvolve, (mk_row Copied Copied Copied RKeep None AAbsent AAbsent AAbsent Copied true));
